@@ -66,7 +66,14 @@ pub fn find2<A: Copy + Ord, B: Copy + Ord>(k0: &[A], k1: &[B], a: A, b: B) -> Op
 pub enum Want {
     Found(RT),
     NotFound,
+    /// no entry matches along the library's documented cascade, but a UTS #35 fallback might:
+    /// accepted answers are 'unchanged' or a full triple that keeps every given subtag
     Either,
+}
+
+/// the weakest thing every `Some` answer must satisfy: given subtags kept, all three present
+pub fn keeps_given(q: &RT, v: &RT) -> bool {
+    (q.l == 0 || v.l == q.l) && (q.s == 0 || v.s == q.s) && (q.r == 0 || v.r == q.r) && v.l != 0 && v.s != 0 && v.r != 0
 }
 
 /// `big`: whether the query may consult the 7143-row language table (callers split by case)
